@@ -62,7 +62,9 @@ def snapshot(root: Path) -> dict:
 
 def generate_per_decl(workdir: Path, idl_text: str, options: dict, targets=TARGETS) -> dict:
     """Parse `idl_text` with the real front end, then generate every declaration separately for every target
-    (so that one failing template does not hide the other declarations).
+    (so that one failing template does not hide the other declarations). `idl_text` is the text of the root file
+    `m.djinni` or a dict {relative path: text} of a program spread over several files (root `m.djinni`, the others
+    reached through `@import`); the declarations of imported files are generated like those of the root file.
 
     Returns {"parse": "ok"|<exception class>, "decls": [{"name", "kind", "names": {...}, "files": {target: {path: text}},
              "errors": {target: exception class}}]}"""
@@ -71,7 +73,10 @@ def generate_per_decl(workdir: Path, idl_text: str, options: dict, targets=TARGE
     from pydjinni.parser.ast import Enum, Flags, Record
     workdir.mkdir(parents=True, exist_ok=True)
     idl = workdir / "m.djinni"
-    idl.write_text(idl_text)
+    if isinstance(idl_text, dict):
+        write_tree(workdir, idl_text)
+    else:
+        idl.write_text(idl_text)
     cwd = os.getcwd()
     os.chdir(workdir)
     try:
@@ -102,16 +107,15 @@ def generate_per_decl(workdir: Path, idl_text: str, options: dict, targets=TARGE
             try:
                 if isinstance(d, (Enum, Flags)):
                     items = d.items if isinstance(d, Enum) else d.flags
-                    info["names"] = {
-                        "cpp": [str(i.cpp.name) for i in items], "java": [str(i.java.name) for i in items],
-                        "objc": [str(i.objc.name) for i in items], "cppcli": [str(i.cppcli.name) for i in items],
-                    }
-                    info["type_names"] = {"cpp": str(d.cpp.name), "java": str(d.java.name), "objc": str(d.objc.name),
-                                          "cppcli": str(d.cppcli.name), "jni": str(d.jni.name), "cpp_typename": str(d.cpp.typename)}
+                    configured = [t for t in ("cpp", "java", "objc", "cppcli", "jni") if t in options["generate"]]
+                    info["names"] = {t: [str(getattr(i, t).name) for i in items] for t in configured if t != "jni"}
+                    info["type_names"] = {**{t: str(getattr(d, t).name) for t in configured}, "cpp_typename": str(d.cpp.typename)}
                 if isinstance(d, Record):
                     info["names"] = {"cpp": [str(f.cpp.name) for f in d.fields], "java": [str(f.java.name) for f in d.fields]}
                     info["type_names"] = {"cpp": str(d.cpp.name), "java": str(d.java.name), "cpp_typename": str(d.cpp.typename),
                                           "java_typename": str(d.java.typename), "cpp_header": str(d.cpp.header)}
+                    info["deriving"] = sorted(str(getattr(x, "value", x)) for x in d.deriving)
+                    info["file"] = os.path.relpath(str(d.position.file), str(workdir)) if getattr(d, "position", None) and d.position.file else None
             except Exception as e:
                 info["errors"]["names"] = type(e).__name__ + ": " + str(e)[:160]
             decls.append(info)
